@@ -10,6 +10,7 @@ mod c18;
 mod staking;
 mod chain;
 mod c17;
+mod c19;
 
 pub fn run(ctx: &Ctx) -> Option<Report> {
     Some(match ctx.prop.as_str() {
@@ -18,6 +19,7 @@ pub fn run(ctx: &Ctx) -> Option<Report> {
         "C09" => c09::run(ctx),
         "C18" => c18::run(ctx),
         "C17" => c17::run(ctx),
+        "C19" => c19::run(ctx),
         "C14" | "C15" | "C16" => staking::run(ctx),
         "C01" | "C02" | "C03" | "C04" | "C05" | "C08" | "C10" | "C11" | "C12" | "C13" => chain::run(ctx),
         _ => return None,
@@ -37,6 +39,6 @@ pub fn replay(ctx: &Ctx, doc: &Value) -> Option<Report> {
     })
 }
 
-pub fn c19_child(_args: &[String]) {
-    std::process::exit(2);
+pub fn c19_child(args: &[String]) {
+    c19::child(args);
 }
